@@ -152,6 +152,18 @@ def gen_program(rng, maxlen=30, aligned_only=False, allow_fault=True, ecalls=Tru
             for _ in range(rng.choice([0, 0, 1, 2])):
                 prog.append(gen_alu(rng))
             prog.append([MN["ecall"]])
+        elif k < 0.985 and ecalls:
+            # itoa style: the program STORES characters into a buffer and prints it (the print must see the stored bytes,
+            # whatever sits between the processor and the backing store)
+            base, off = rng.choice([8, 9]), rng.randrange(0, 28)
+            for j in range(rng.randrange(1, 4)):
+                prog.append([MN["addi"], 6, 0, rng.choice([65, 66, 48, 0x7F, 33])])
+                prog.append([MN["sb"], base, 6, off + j])
+            if rng.random() < 0.7:
+                prog.append([MN["sb"], base, 0, off + j + 1])      # terminator
+            prog.append([MN["addi"], 10, base, off])
+            prog.append([MN["addi"], 17, 0, 4])
+            prog.append([MN["ecall"]])
         else:
             prog.append(gen_alu(rng))
     if rng.random() < 0.3:
